@@ -113,7 +113,7 @@ def run(chk):
 
 TRUSTED = [
     "Coq 8.16.1 kernel (coqc, full .vo build); vm_compute used in Examples only; no native_compute",
-    "axioms: none (Print Assumptions: Closed under the global context for every C14 theorem)",
+    "axioms: none for the value-law theorems; C14_inc_dec_restores_int and C14_build_knock_restores_int (Proofs/FloatExact.v, via Flocq) depend on the four axioms of Coq's standard library of classical reals: ClassicalDedekindReals.sig_forall_dec, sig_not_dec, FunctionalExtensionality.functional_extensionality_dep, Classical_Prop.classic (as Print Assumptions reports per theorem below)",
     "model Exec/Val.v, Exec/Ops.v hand-written from src/exec/val.rs and produce_val.rs; tied by suite VAL (exhaustive U×U, debug+release)",
     "extraction: ExtrOcamlBasic only; OCaml driver /verif/driver; Rust harness /verif/harness; Python orchestrator",
     "f64 parse/display in the model are ports checked by suite F64, not proved equal to Rust std",
